@@ -58,12 +58,18 @@ impl<T: Read + Seek> E57Reader<T> {
         )?;
         let xml = String::from_utf8(xml_raw).read_err("Failed to parse XML as UTF8")?;
         // Character data that is split into very many pieces is joined first, the parser needs quadratic time for it
-        let joined_xml = if crate::xml::check_xml_shape(&xml)? {
+        let mut prepared_xml = if crate::xml::check_xml_shape(&xml)? {
             Some(crate::xml::join_text_pieces(&xml)?)
         } else {
             None
         };
-        let document = Document::parse(joined_xml.as_deref().unwrap_or(&xml))
+        // XML defines that all line ends become line feeds before anything else happens.
+        // The parser does this on the fly and misses a carriage return that follows a character reference.
+        if prepared_xml.as_deref().unwrap_or(&xml).contains('\r') {
+            let text = prepared_xml.as_deref().unwrap_or(&xml);
+            prepared_xml = Some(text.replace("\r\n", "\n").replace('\r', "\n"));
+        }
+        let document = Document::parse(prepared_xml.as_deref().unwrap_or(&xml))
             .invalid_err("Failed to parse XML data")?;
         let root = root_from_document(&document)?;
         let pointclouds = PointCloud::vec_from_document(&document)?;
